@@ -230,6 +230,33 @@ def rule_reselection_guard(eng, rep, rule="C17-4b.incumbent-is-re-selected-whene
             else:
                 rep.ok(rule, site, "re-selection runs whenever some stored objective is not NaN")
     rep.require_count(rule, "incumbent re-selections in add_new_sample", n, 1)
+    # must-pass-through: every normal exit of add_new_sample lies behind the re-selection, or behind the all-NaN outcome of its admissible guard
+    # (dominance-based guards do not see an early `return` placed before the re-selection)
+    from ..dataflow import Flow
+    from ..norm import atom_of
+    resel = set(nn for nn, d in cfg.g.nodes(data=True) if d["kind"] == "stmt" and isinstance(d["ast"], ast.Assign)
+                and _written_field(d["ast"].targets[0], m.posparams[0]) == "kopt")
+
+    def node_fn(nn, s):
+        return ["done"] if nn in resel else [s]
+
+    def edge_fn(a, b, e, s):
+        if s == "pending" and cfg.kind(a) == "cond" and e.get("label") in (True, False):
+            at = atom_of(cfg.ast_of(a), e["label"])
+            if at.op == "truth" and ekey(at.lhs).replace("numpy", "np").startswith("np.all(np.isnan("):
+                return "done"
+        return s
+
+    fl = Flow(cfg, "pending", node_fn, edge_fn)
+    if "pending" in set(fl.states(cfg.exit)):
+        p = fl.path_to(cfg.exit, "pending")
+        last = [x for x in p if cfg.kind(x) == "stmt" and isinstance(cfg.ast_of(x), ast.Return)]
+        where = eng.where(m, cfg.ast_of(last[-1])) if last else eng.where(m)
+        rep.bad(rule, where, "model.Model.add_new_sample|exit-without-reselection",
+                "add_new_sample can return after changing objval[k] without re-selecting the incumbent although finite values are stored: kopt no longer designates the smallest stored objective",
+                path=cfg.describe_path(p)[-12:])
+    else:
+        rep.ok(rule, eng.where(m), "every normal exit of add_new_sample lies behind the re-selection or behind `all values are NaN`")
 
 
 def run(eng, rep):
@@ -246,4 +273,6 @@ def run(eng, rep):
     rule_kopt_valid(eng, rep)
     rule_reselection_guard(eng, rep)
     from .records import rule_snapshots_are_copies
+    from .c03 import rule_extra_samples_same_slot
+    rule_extra_samples_same_slot(eng, rep, rule="C17-7.extra-samples-go-to-the-slot-of-their-point")
     rule_snapshots_are_copies(eng, rep, "C17-6.saved-record-does-not-alias-live-arrays", [("f", "Model", f) for f in ("xsave", "rsave", "jacsave", "jacsave_eval_nums")], "the saved-point slot")
